@@ -84,13 +84,98 @@ class Selection:
         return {"cwd": sorted({c["cwd"] for c in cases})}
 
 
+class TestPackaging:
+    """C13 through libcnb-test: TestRunner::build with BuildpackReference::WorkspaceBuildpack / CurrentCrate packages the
+    named buildpack of the Cargo workspace and its transitive dependencies (composite buildpacks, nothing to compile)
+    before it calls `pack build`; observed through the stand-in pack executable."""
+    id = "C13LT"
+    decides_property = True
+    hold_mod = "C13LtHold"
+    agree_mod = "C13LtAgree"
+    per_shard = 40
+    scope = "nat_scope"
+    extra_imports = "From LV Require Import DepGraph.\n"
+    rule = ("Cargo workspaces (root + one member crate = the crate under test) with 2..5 composite buildpacks placed in the "
+            "crate directory itself, below it, next to it and elsewhere in the workspace; libcnb: dependencies forming a "
+            "DAG; one test build naming one buildpack (by id or as the current crate), some with an unknown dependency "
+            "somewhere or an unknown selection; observed: whether `pack build` was reached, the directory handed to "
+            "--buildpack and the buildpack directories packaged next to it")
+
+    DIRS = ["crate", "crate/bps/inner", "bps/sibling", "other/deep/place", "crate/tests/fixtures/bp", "top"]
+
+    def gen(self, rng, tier):
+        import subprocess
+        cases = []
+        for _ in range(60 if tier == "thorough" else 24):
+            n = rng.randint(2, 5)
+            dirs = rng.sample(self.DIRS, n)
+            order = list(range(n)); rng.shuffle(order)
+            p = rng.choice([0.3, 0.6])
+            bps = []
+            for k, d in enumerate(dirs):
+                deps = [j for j in range(n) if order.index(j) < order.index(k) and rng.random() < p]
+                rng.shuffle(deps)
+                bps.append({"dir": d, "id": k, "deps": deps})
+            r = rng.random()
+            root = rng.randrange(n)
+            if r < 0.12:
+                bps[rng.randrange(n)]["deps"].append(77)          # a dependency on a buildpack nobody has
+            elif r < 0.2:
+                root = 99                                         # a selection nobody has
+            if root < n and "crate" in dirs and rng.random() < 0.4:
+                root = dirs.index("crate")
+            current = root < n and bps[root]["dir"] == "crate" and rng.random() < 0.7
+            cases.append({"bps": bps, "root": root, "current": current})
+        return cases
+
+    def run_impl(self, cases, workdir):
+        import subprocess
+        sb = os.path.join(workdir, "sandbox")
+        os.makedirs(sb, exist_ok=True)
+        sysroot = subprocess.run(["rustc", "--print", "sysroot"], stdout=subprocess.PIPE, text=True, check=True).stdout.strip()
+        hc = []
+        for c in cases:
+            ref = {"current": True} if c["current"] else {"ws": list(("ws/b%d" % c["root"]).encode())}
+            hc.append({"id": c["id"], "fail": [], "body": [], "noise": None,
+                       "workspace": [{"dir": list(b["dir"].encode()), "id": list(("ws/b%d" % b["id"]).encode()),
+                                      "deps": [list(("ws/b%d" % d).encode()) for d in b["deps"]]} for b in c["bps"]],
+                       "build": {"builder": list(b"heroku/builder:22"), "app_dir": list(b"fixtures/app"), "buildpacks": [ref],
+                                 "env": [], "expected": "success", "pre": None,
+                                 "target": "x86_64-unknown-linux-gnu"}})      # (the host: no cross-compilation toolchain is looked for)
+        return run_harness("lt", hc, workdir, extra_env={"VERIF_SANDBOX": sb, "VERIF_CARGO": os.path.join(sysroot, "bin", "cargo")})
+
+    @staticmethod
+    def _num(name):
+        return int(name[len("ws_b"):]) if name.startswith("ws_b") and name[len("ws_b"):].isdigit() else 1000
+
+    def to_coq(self, c, o):
+        packs = [e for e in o["log"] if e["prog"] == "pack" and e.get("bp_dirs") is not None]
+        ok = o["status"] == "done" and len(packs) == 1
+        packaged, chosen = [], "None"
+        if packs and packs[0]["bp_dirs"]:
+            d = packs[0]["bp_dirs"][0]
+            packaged = [self._num(x) for x in d["siblings"]]
+            chosen = "(Some %d)" % self._num(d["name"] or "")
+            # every libcnb: reference of the packaged descriptor was replaced by a packaged directory
+            if not d["has_descriptor"] or "libcnb:" in (d["package_toml"] or "libcnb:"):
+                ok = False
+        nodes = cq_list([f"({b['id']}, {cq_nats(b['deps'])})" for b in c["bps"]])
+        return f"(mkLt {nodes} {c['root']} {cq_bool(ok)} {cq_nats(packaged)} {chosen})"
+
+    def distribution(self, cases, obs):
+        return {"selected_by": {"current-crate": sum(1 for c in cases if c["current"]), "id": sum(1 for c in cases if not c["current"])},
+                "selected_dir": sorted({c["bps"][c["root"]]["dir"] for c in cases if c["root"] < len(c["bps"])}),
+                "status": {s: sum(1 for c in cases if obs[c["id"]]["status"] == s) for s in sorted({o["status"] for o in obs.values()})}}
+
+
 class C13:
     id = "C13"
     stream = "c13"
-    extra_streams = [Selection()]
+    extra_streams = [Selection(), TestPackaging()]
     scope = "nat_scope"
     translator_prefixes = ["dependency_graph.rs", "command.rs"]
     coq_targets = ["theories/Checks/C13Hold.vo", "theories/Checks/C13Agree.vo", "theories/Props/C13.vo",
+                   "theories/Checks/C13LtHold.vo", "theories/Checks/C13LtAgree.vo",
                    "theories/Checks/C15Hold.vo", "theories/Checks/C15Agree.vo"]
     hold_target = "theories/Checks/C13Hold.vo"
     agree_target = "theories/Checks/C13Agree.vo"
